@@ -8,13 +8,13 @@ open Fontc
 /-- A font is emitted although the value does not fit: then the reader sees a DIFFERENT value — with the single
     exception of a contour ending exactly at point 65535 (65536 points) in a release build, where the wrapped
     subtraction happens to produce the right end point. -/
-theorem emitted_out_of_range_differs (f : Field) (v : Rat) (p : Profile) (w : Rat)
-    (hr : ¬ Representable f v) (hw : fieldPipeline f v p = .ok w) :
+theorem emitted_out_of_range_differs_old (f : Field) (v : Rat) (p : Profile) (w : Rat)
+    (hr : ¬ Representable f v) (hw : fieldPipelineOld f v p = .ok w) :
     w ≠ ideal f v ∨ (f = .endPt ∧ cnt v = 65536 ∧ p = .release) := by
   cases f
   case comp2x2 =>
     left
-    simp only [fieldPipeline] at hw
+    simp only [fieldPipelineOld] at hw
     by_cases hc : -2 ≤ v ∧ v ≤ 2
     · rw [if_pos hc] at hw
       simp only [Representable] at hr
@@ -30,7 +30,7 @@ theorem emitted_out_of_range_differs (f : Field) (v : Rat) (p : Profile) (w : Ra
   case outlineCoord | compOffset | lsb | kernValue | anchorCoord | valueDelta | gvarDelta | hvarDelta | metricI16 =>
     left
     simp only [Representable] at hr
-    simp only [fieldPipeline, otRoundI16] at hw
+    simp only [fieldPipelineOld, otRoundI16] at hw
     injection hw with hw
     rw [← hw]; simp only [ideal]
     intro he
@@ -38,7 +38,7 @@ theorem emitted_out_of_range_differs (f : Field) (v : Rat) (p : Profile) (w : Ra
   case advance | metricU16 =>
     left
     simp only [Representable] at hr
-    simp only [fieldPipeline, otRoundU16] at hw
+    simp only [fieldPipelineOld, otRoundU16] at hw
     injection hw with hw
     rw [← hw]; simp only [ideal]
     intro he
@@ -46,7 +46,7 @@ theorem emitted_out_of_range_differs (f : Field) (v : Rat) (p : Profile) (w : Ra
   case rsbExtent =>
     left
     simp only [Representable] at hr
-    simp only [fieldPipeline] at hw
+    simp only [fieldPipelineOld] at hw
     injection hw with hw
     rw [← hw]; simp only [ideal]
     intro he
@@ -54,7 +54,7 @@ theorem emitted_out_of_range_differs (f : Field) (v : Rat) (p : Profile) (w : Ra
   case pointDelta | tsb =>
     left
     simp only [Representable] at hr
-    simp only [fieldPipeline, subI16, Int.sub_zero] at hw
+    simp only [fieldPipelineOld, subI16, Int.sub_zero] at hw
     rw [if_neg hr] at hw
     cases p
     · cases hw
@@ -65,16 +65,16 @@ theorem emitted_out_of_range_differs (f : Field) (v : Rat) (p : Profile) (w : Ra
       exact wrapI16_ne hr (Rat.intCast_inj.1 he)
   case glyphCount | longMetricCount =>
     simp only [Representable] at hr
-    simp only [fieldPipeline] at hw
+    simp only [fieldPipelineOld] at hw
     rw [if_neg hr] at hw; cases hw
   case numContours =>
     simp only [Representable] at hr
-    simp only [fieldPipeline] at hw
+    simp only [fieldPipelineOld] at hw
     rw [if_neg hr] at hw; cases hw
   case countU16 =>
     left
     simp only [Representable] at hr
-    simp only [fieldPipeline] at hw
+    simp only [fieldPipelineOld] at hw
     injection hw with hw
     rw [← hw]; simp only [ideal]
     intro he
@@ -83,7 +83,7 @@ theorem emitted_out_of_range_differs (f : Field) (v : Rat) (p : Profile) (w : Ra
   case compositeTotal =>
     left
     simp only [Representable] at hr
-    simp only [fieldPipeline, addU16, Int.zero_add] at hw
+    simp only [fieldPipelineOld, addU16, Int.zero_add] at hw
     rw [if_neg hr] at hw
     cases p
     · cases hw
@@ -95,7 +95,7 @@ theorem emitted_out_of_range_differs (f : Field) (v : Rat) (p : Profile) (w : Ra
       exact wrapU16_ne this (Rat.intCast_inj.1 he)
   case endPt =>
     simp only [Representable] at hr
-    simp only [fieldPipeline, subU16] at hw
+    simp only [fieldPipelineOld, subU16] at hw
     have hc := cnt_nonneg v
     have hwr := wrapU16_range (cnt v)
     unfold inU16 at hwr
